@@ -149,6 +149,10 @@ def values_inline(rng, dt, desc):
         return vals
     lengths = sorted(set(list(range(0, 16)) + [rng.randint(16, 200) for _ in range(desc["n_random"] // 4)] + [199, 200]))
     out = []
+    if dt == R.VISIBLE_STRING:
+        out += ["abc ", " ", "two  blanks  ", " lead"]                       # blanks are characters, also at the end
+    if dt == R.UNICODE_STRING:
+        out += ["\ufeffab", "\ufffeab", "a\ufeff", "\ufeff", "end "]           # byte-order-mark look-alikes are characters too
     for n in lengths:
         if dt == R.VISIBLE_STRING:
             out.append("".join(chr(rng.randint(32, 126)) for _ in range(n)).rstrip() + ("x" if n else ""))
